@@ -9,71 +9,53 @@ HERE = os.path.dirname(os.path.dirname(os.path.abspath(__file__)))
 MUT = "/tmp/c18mut"
 
 FIXES = {
-    "entails-normalize-first": [("src/policy/semantic.rs", [
-        ("""        match (self, other) {
-            (Self::Unsatisfiable, _) => Some(true),
-            (Self::Trivial, Self::Trivial) => Some(true),
-            (Self::Trivial, _) => Some(false),
-            (_, Self::Unsatisfiable) => Some(false),
-            (a, b) => {
-                let (a_norm, b_norm) = (a.normalized(), b.normalized());
-                let first_constraint = a_norm.first_constraint();
+    # entails-normalize-first, lift-and-threshold and timelocks-ignore-unsatisfiable were applied to
+    # /repo (51c85bfb, 780a529d in the C11 builder's variant, b588aa3a); their diffs stay in
+    # notes/fixes/ for reference and no longer apply.
+    "lift-check-timelocks-once": [("src/policy/mod.rs", [
+        ("""        // do not lift if there is a possible satisfaction
+        // involving combination of timelocks and heightlocks
+        self.check_timelocks().map_err(Error::ConcretePolicy)?;
+        let ret = match *self {
 """,
-         """        // Normalize before looking at the constants: `or(TRIVIAL, x)` is a tautology and
-        // `and(UNSATISFIABLE, x)` is unsatisfiable although neither is the constant itself.
-        match (self.normalized(), other.normalized()) {
-            (Self::Unsatisfiable, _) => Some(true),
-            (Self::Trivial, Self::Trivial) => Some(true),
-            (Self::Trivial, _) => Some(false),
-            (_, Self::Unsatisfiable) => Some(false),
-            (a_norm, b_norm) => {
-                let first_constraint = a_norm.first_constraint();
-""")])],
-    "lift-and-threshold": [("src/policy/mod.rs", [
-        ("""                let semantic_subs = semantic_subs?.into_iter().map(Arc::new).collect();
-                Semantic::Thresh(Threshold::new(2, semantic_subs).unwrap())
-""",
-         """                let semantic_subs: Vec<_> = semantic_subs?.into_iter().map(Arc::new).collect();
-                // An `And` requires all of its children, however many there are.
-                Semantic::Thresh(
-                    Threshold::new(semantic_subs.len(), semantic_subs).map_err(Error::Threshold)?,
-                )
-""")])],
-    "timelocks-ignore-unsatisfiable": [("src/policy/concrete.rs", [
-        ("""        let mut infos = vec![];
-        for data in self.rtl_post_order_iter() {
-            let info = match data.node {
-""",
-         """        // Alongside each `TimelockInfo` track whether the sub-policy is satisfiable at all: an
-        // unsatisfiable branch can never be part of a spending path, so its timelocks must not
-        // be combined with those of its siblings.
-        let mut infos: Vec<TimelockInfo> = vec![];
-        let mut sats: Vec<bool> = vec![];
-        for data in self.rtl_post_order_iter() {
-            let (n_children, k) = match data.node {
-                And(ref subs) => (subs.len(), subs.len()),
-                Or(ref subs) => (subs.len(), 1),
-                Thresh(ref thresh) => (thresh.n(), thresh.k()),
-                _ => (0, 0),
-            };
-            let n_sat = (0..n_children).filter(|i| sats[sats.len() - 1 - i]).count();
-            sats.truncate(sats.len() - n_children);
-            let satisfiable = match data.node {
-                Self::Unsatisfiable => false,
-                And(..) | Or(..) | Thresh(..) => n_sat >= k,
-                _ => true,
-            };
-            sats.push(satisfiable);
-            let info = match data.node {
+         """        // do not lift if there is a possible satisfaction
+        // involving combination of timelocks and heightlocks.
+        // Checked once, for the whole policy: `check_timelocks` ignores unsatisfiable
+        // branches, so the sub-policies must not be re-checked in isolation.
+        self.check_timelocks().map_err(Error::ConcretePolicy)?;
+        self.lift_unchecked()
+    }
+}
+
+impl<Pk: MiniscriptKey> Concrete<Pk> {
+    /// Lifts without looking at timelock combinations (done once by [`Liftable::lift`]).
+    fn lift_unchecked(&self) -> Result<Semantic<Pk>, Error> {
+        let ret = match *self {
 """),
-        ("""                _ => TimelockInfo::default(),
-            };
-            infos.push(info);
+        ("""                    subs.iter().map(Liftable::lift).collect();
 """,
-         """                _ => TimelockInfo::default(),
-            };
-            infos.push(if satisfiable { info } else { TimelockInfo::default() });
-""")])],
+         """                    subs.iter().map(|sub| sub.lift_unchecked()).collect();
+"""),
+        ("""                    subs.iter().map(|(_p, sub)| sub.lift()).collect();
+""",
+         """                    subs.iter().map(|(_p, sub)| sub.lift_unchecked()).collect();
+"""),
+        ("""                Semantic::Thresh(thresh.translate_ref(|sub| Liftable::lift(sub).map(Arc::new))?)
+            }
+        }
+        .normalized();
+        Ok(ret)
+    }
+}
+impl<Pk: MiniscriptKey> Liftable<Pk> for Arc<Concrete<Pk>> {""",
+         """                Semantic::Thresh(thresh.translate_ref(|sub| sub.lift_unchecked().map(Arc::new))?)
+            }
+        }
+        .normalized();
+        Ok(ret)
+    }
+}
+impl<Pk: MiniscriptKey> Liftable<Pk> for Arc<Concrete<Pk>> {""")])],
     "minimum-n-keys-doc": [("src/policy/semantic.rs", [
         ("""    /// Counts the minimum number of public keys for which signatures could be
     /// used to satisfy the policy.
